@@ -115,6 +115,31 @@ func genC14ManyPeers(p *Plan, r *RNG) {
 		p.Ops = append(p.Ops, o)
 		p.Ops = append(p.Ops, Op{Actor: "c1", Kind: "writeto", At: gap(int64(r.Range(1, 5)) * sec), A: OpArgs{Peer: p.Peers[r.Intn(np)].Addr, Len: 40}})
 	}
+	if r.Chance(1, 2) {
+		// across the nonce hour with a permission timeout that leaves the 2-minute refresh little
+		// room: the round that meets the stale nonce has to be made good at once, for every
+		// request of it. The probes come from ports the client has no channel for - what lets
+		// them in is the permission alone - every few seconds while the hour ends
+		p.Flavor += "+nonce-hour"
+		p.Cfg.PermTimeoutS = r.PickInt([]int{150, 180, 200, 239})
+		var t int64
+		for _, o := range p.Ops {
+			t += o.At.GapNS
+		}
+		first := true
+		for at := 3590*sec + int64(r.Intn(20))*sec; at < 4000*sec; at += int64(r.Range(4, 25)) * sec {
+			g := gap(at - t)
+			if first && at <= t {
+				g = gap(sec)
+			}
+			first = false
+			t = at
+			if t < 0 {
+				break
+			}
+			p.Ops = append(p.Ops, Op{Actor: p.Peers[r.Intn(np)].ID, Kind: "peer_send", At: g, A: OpArgs{Target: "c1", Len: r.Range(20, 100), N: 6000 + r.Intn(3)}})
+		}
+	}
 	p.QuietNS = 10 * sec
 }
 
